@@ -3,10 +3,10 @@ From Odf Require Import model.Base model.XmlLex model.XmlTree model.NsTable mode
 
 (* the reference returned by addObject is "./" + x and the object is stored in folder x + "/"
    (default names, explicit names with or without a leading slash, any nesting) *)
-Theorem C16_reference : forall pf n child name, (pf = [] \/ exists x, pf = cSLASHc :: x) ->
-  exists x, snd (add_object pf n child name) = 46 :: cSLASHc :: x /\
-            objfolder (fst (add_object pf n child name)) = x ++ [cSLASHc] /\
-            o_folder (fst (add_object pf n child name)) = cSLASHc :: x.
+Theorem C16_reference : forall pf taken child name, (pf = [] \/ exists x, pf = cSLASHc :: x) ->
+  exists x, snd (add_object pf taken child name) = 46 :: cSLASHc :: x /\
+            objfolder (fst (add_object pf taken child name)) = x ++ [cSLASHc] /\
+            o_folder (fst (add_object pf taken child name)) = cSLASHc :: x.
 Proof. exact add_object_reference. Qed.
 Print Assumptions C16_reference.
 
@@ -42,3 +42,10 @@ Theorem C16_other_files : forall m member mime rs os p mtv,
   In (p, mtv) (snd (save_m (load_m m member mime rs os))).
 Proof. exact extra_survives_load_save. Qed.
 Print Assumptions C16_other_files.
+
+(* taken: the folders of the objects the parent holds already.  An object attached under the default name gets a folder none
+   of them has - whatever numbers a loaded package used for its objects, whatever names a caller gave (the first free
+   "Object N"; pigeonhole: among |taken| + 1 consecutive numbers one is free) *)
+Theorem C16_folder_of_its_own : forall pf taken child, ~ In (o_folder (fst (add_object pf taken child None))) taken.
+Proof. exact add_object_fresh. Qed.
+Print Assumptions C16_folder_of_its_own.
